@@ -15,12 +15,13 @@ LEVEL_TEXT = ("For every position of every generated assembly (all supported geo
               "segments with the layout derived by the assemble monitor and compared: the exchange must succeed, every other segment "
               "and the vector backbone must be byte-for-byte equal and the exchanged segment must be the new overhang + target.")
 LEVEL_NOTE = "the segmentation uses mon/refmodel.py on the inputs; the comparison itself is between two products of the real code"
-RULE = ("generated: per supported geometry chains of 1..4 modules, each position exchanged for 2 fresh same-overhang modules with targets "
-        "of other lengths (2..60 nt); registry: per derived chain, each position exchanged for every (quick: up to 3) other registry "
+RULE = ("generated: per supported geometry chains of 1..4 modules (half of them typed by user-defined part classes whose signature is the "
+        "position's overhang pair), each position exchanged for 2 fresh same-overhang modules with targets of other lengths (2..60 nt) "
+        "stored under the same record id, the entities of the original assembly being kept alive; registry: per derived chain, each position exchanged for every (quick: up to 3) other registry "
         "plasmid with the same cutter and the same two overhangs (e.g. YTK promoters, CIDAR promoters). Non-trivial = exchange executed "
         "and both products segmented and compared; distinct = distinct (original inputs, position, replacement).")
 ASSUMPTIONS = ["both assemblies are complete unambiguous chains of well-formed plasmids (exactly two sites each)"]
-FLOORS = {"c19_exchanges": 600, "c19_registry_exchanges": 30, "c19_segments_compared": 1500}
+FLOORS = {"c19_typed_part_cases": 50, "c19_exchanges": 600, "c19_registry_exchanges": 30, "c19_segments_compared": 1500}
 MUST_REACH = ["AssemblyManager._generate_assembly"]
 NEEDS_REGISTRIES = True
 BUDGET_S = {"quick": 900, "thorough": 7200}
@@ -52,12 +53,19 @@ def worker_init(ctx, tier):
     _mon.install()
 
 
+_alive = []
+
+
 def run(vcls, vrec, mods):
-    """assemble; return (product text rotated to start with the vector fragment, segment list [(record index, length)]) or error"""
+    """assemble; return (product text rotated to start with the vector fragment, segment list [(record index, length)]) or error.
+    The entities of every run stay alive until the case is over (a user keeps the parts of the original
+    assembly around while trying a replacement)."""
     with warnings.catch_warnings():
         warnings.simplefilter("ignore")
+        ents = [vcls(vrec)] + [c(r) for c, r in mods]
+        _alive.append(ents)
         try:
-            vcls(vrec).assemble(*[c(r) for c, r in mods])
+            ents[0].assemble(*ents[1:])
         except Exception as e:
             return ("raised", e)
     lay = asmmon.product_layout(_mon.last)
@@ -110,7 +118,16 @@ def execute(mat, ctx):
         geom = refmodel.geometry(gen.enzyme(amat["enzyme"]))
         texts = [amat["vector"]["seq"]] + [m["seq"] for m in amat["modules"]]
         rec = lambda t, i: CircularRecord(Seq(t), "r%d" % i)
-        base = run(V, rec(texts[0], 0), [(M, rec(t, i + 1)) for i, t in enumerate(texts[1:])])
+        del _alive[:]
+        classes = [M] * (len(texts) - 1)
+        if mat["i"] % 2:
+            # typed parts: one user-defined part class per position, signature = the two overhangs of that position;
+            # the replacement is a new version of the same part stored under the same record id
+            from moclo.core.parts import AbstractPart
+            frs = [refmodel.module_fragment(t.upper(), geom) for t in texts[1:]]
+            classes = [type(str("Part%d_%d" % (mat["i"], j)), (AbstractPart, M), {"cutter": gen.enzyme(amat["enzyme"]), "signature": (f[2], f[3])}) for j, f in enumerate(frs)]
+            ctx.count("c19_typed_part_cases")
+        base = run(V, rec(texts[0], 0), [(c, rec(t, i + 1)) for i, (c, t) in enumerate(zip(classes, texts[1:]))])
         if base[0] != "ok":
             ctx.count("base_assembly_not_ok")
             return
@@ -125,12 +142,13 @@ def execute(mat, ctx):
                 ntext = rot_left(nm["seq"], rng.randrange(len(nm["seq"])))
                 t2 = list(texts)
                 t2[pos] = ntext
-                new = run(V, rec(t2[0], 0), [(M, rec(t, i + 1)) for i, t in enumerate(t2[1:])])
+                new = run(V, rec(t2[0], 0), [(c, rec(t, i + 1)) for i, (c, t) in enumerate(zip(classes, t2[1:]))])
                 compare(ctx, base, new, pos, "%s chain of %d, position %d" % (amat["enzyme"], len(texts) - 1, pos),
                         dict(enzyme=amat["enzyme"], texts=texts, replacement=ntext, position=pos))
                 ctx.nontrivial([amat["enzyme"], texts, pos, ntext])
         ctx.sample({"kind": "generated", "enzyme": amat["enzyme"], "modules": len(texts) - 1, "vector": texts[0][:60]}, cap=2)
         return
+    del _alive[:]
     vcls, vrec, mods = _embedded.registry_records(mat)
     base = run(vcls, vrec, mods)
     if base[0] != "ok":
